@@ -533,6 +533,11 @@ def _p_is_orthonormal(ctx, r, rng):
     bad2[1] = (rows[1] + max(delta, 1e-2) * rows[0])
     bad2[1] /= np.linalg.norm(bad2[1])
     ask(ctx, "is_orthonormal", (bad2,), False, "neg-not-orthogonal", d, cplx)
+    if k >= 3:  # the only non-orthogonal pair is the first and the last vector
+        bad3 = rows.copy()
+        bad3[-1] = rows[-1] + max(delta, 1e-2) * rows[0]
+        bad3[-1] /= np.linalg.norm(bad3[-1])
+        ask(ctx, "is_orthonormal", (bad3,), False, "neg-first-and-last-not-orthogonal", d, cplx)
 
 
 def _p_is_linearly_independent(ctx, r, rng):
@@ -626,6 +631,10 @@ def _p_is_mutually_orthogonal(ctx, r, rng):
     bad = [c.copy() for c in cols]
     bad[1] = bad[1] + max(delta, 1e-3) * bad[0]
     ask(ctx, "is_mutually_orthogonal", (bad,), False, "neg", d, cplx)
+    if k >= 3:  # the only non-orthogonal pair is the first and the last vector of the list
+        bad3 = [c.copy() for c in cols]
+        bad3[-1] = bad3[-1] + max(delta, 1e-2) * bad3[0]
+        ask(ctx, "is_mutually_orthogonal", (bad3,), False, "neg-first-and-last", d, cplx)
     res = ctx.call(_fn("is_mutually_orthogonal"), [cols[0]], expect=(ValueError,))
     if res is not FAILED:
         ctx.check("pred:is_mutually_orthogonal", isinstance(res, ValueError), sig=("single-vector",), mech="is_mutually_orthogonal:accepts-single-vector", detail={})
@@ -653,6 +662,12 @@ def _p_is_mutually_unbiased_basis(ctx, r, rng):
     if dev > 1e-3:
         ask(ctx, "is_mutually_unbiased_basis", (bad,), False, "neg-rotated-second-basis", d, True)
     ask(ctx, "is_mutually_unbiased_basis", (comp + four[:-1],), False, "neg-incomplete-basis", d, True)
+    # three bases of which only the two that are NOT neighbours in the list are biased (the first reappears, permuted and with phases, as the third)
+    perm = rng.permutation(d)
+    again = [np.exp(2j * np.pi * rng.random()) * comp[int(perm[i])] for i in range(d)]
+    ask(ctx, "is_mutually_unbiased_basis", (comp + four + again,), False, "neg-first-and-third-basis-biased", d, True)
+    again_f = [np.exp(2j * np.pi * rng.random()) * four[int(perm[i])] for i in range(d)]
+    ask(ctx, "is_mutually_unbiased_basis", (four + comp + again_f,), False, "neg-first-and-third-basis-biased[fourier]", d, True)
 
 
 def _tiles():
